@@ -46,6 +46,26 @@ def clf_zoo():
     return Z
 
 
+def _needs_three():
+    from sklearn.base import BaseEstimator, RegressorMixin
+
+    class NeedsThreeSamples(RegressorMixin, BaseEstimator):
+        """mean regressor that cannot be fitted on fewer than three samples (stands for ARDRegression & co. on tiny training sets)"""
+        def fit(self, X, y, sample_weight=None):
+            if len(y) < 3:
+                raise ValueError("at least three samples are required")
+            self.mean_ = float(np.average(y, weights=sample_weight))
+            self.std_ = float(np.std(y)) + 1.0
+            return self
+
+        def predict(self, X, return_std=False):
+            from sklearn.utils.validation import check_is_fitted
+            check_is_fitted(self)                      # NotFittedError like every scikit-learn estimator
+            m = np.full(len(X), self.mean_)
+            return (m, np.full(len(X), self.std_)) if return_std else m
+    return NeedsThreeSamples()
+
+
 def reg_zoo():
     from skactiveml.regressor import NICKernelRegressor, NadarayaWatsonRegressor, SklearnRegressor, SklearnNormalRegressor
     from sklearn.linear_model import LinearRegression, BayesianRidge, Ridge
@@ -61,6 +81,8 @@ def reg_zoo():
         "Sk-Ridge": dict(mk=lambda **k: SklearnRegressor(Ridge(), **k), prob=False),
         "Sk-Tree": dict(mk=lambda **k: SklearnRegressor(DecisionTreeRegressor(random_state=0), **k), prob=False),
         "SkNormal-BayesianRidge": dict(mk=lambda **k: SklearnNormalRegressor(BayesianRidge(), **k), prob=True, sk_normal=True),
+        "Sk-NeedsThree": dict(mk=lambda **k: SklearnRegressor(_needs_three(), **k), prob=False, fallback=True),
+        "SkNormal-NeedsThree": dict(mk=lambda **k: SklearnNormalRegressor(_needs_three(), **k), prob=True, sk_normal=True, fallback=True),
         "SkNormal-GP": dict(mk=lambda **k: SklearnNormalRegressor(GaussianProcessRegressor(random_state=0), **k), prob=True, sk_normal=True,
                             weights=False),
     }
@@ -304,6 +326,13 @@ def run_c12(case, fail):
     miss = rs.rand(n) < 0.4
     if miss.all():
         miss[0] = False
+    if case["t"] % 5 == 3 and not case.get("reg"):
+        y[:] = y[0]                                   # a single observed class (declared: three): wrapped estimators fall back to label counts
+        if not miss.any():
+            miss[-1] = True
+    if case.get("reg") and z.get("fallback") and case["t"] % 2:
+        miss[:] = True
+        miss[:2] = False                              # two labeled samples only: the wrapped estimator refuses, the label statistics take over
     if case["t"] % 3 == 2:
         # a numeric sentinel instead of NaN (the models are configured with it)
         ml = -1.0 if case.get("reg") else -1.0
@@ -347,6 +376,8 @@ def run_c12(case, fail):
     if w is not None:
         w3 = w.copy()
         w3[miss] = rs.rand(*((int(miss.sum()), 2) if np.ndim(w3) == 2 else (int(miss.sum()),))) * 100
+        if case["t"] % 4 == 1:
+            w3[miss] = np.inf                          # any weight, even an infinite one, on an unlabeled row is irrelevant
         w_before = w3.copy()
         try:
             c = fit(mk(), X, y2, w3)
@@ -422,9 +453,19 @@ def run_c13(case, fail):
     try:
         fit(a, X1, y1, None)
         pred(a, X1[:2])
+        # decisions at points where the model is indifferent (far away from all data: tied expected costs) are tie-broken with the estimator's
+        # generator; a refit must re-seed it, whatever was predicted before
+        Xtie = np.vstack([np.full((6, X1.shape[1]), 1e6), np.full((6, X1.shape[1]), -1e6)])
+        if not case.get("reg"):
+            a.predict(Xtie)
         fit(a, X2, y2, None)
         b = fit(mk(), X2, y2, None)
         pa, pb = pred(a, Xq), pred(b, Xq)
+        if not case.get("reg") and not z.get("multi"):
+            Xtie2 = np.vstack([np.full((6, d2), 1e6), np.full((6, d2), -1e6)])
+            da, db = np.asarray(a.predict(Xtie2)).tolist(), np.asarray(b.predict(Xtie2)).tolist()
+            if da != db and getattr(a, "is_fitted_", True) is not False:
+                fail("C13.refit_decisions_differ_from_fresh_fit", f"after fit - predict - fit the decisions at tied points are {da}, a fresh fit on the same data decides {db}")
     except Exception as e:
         fail("C13.refit_raised", f"{type(e).__name__}: {str(e)[:120]}")
         return
@@ -476,15 +517,48 @@ def run_c15(case, fail):
     elif pat == 2:
         y[rs.rand(n) < 0.4] = np.nan
     n_lab = int(np.sum(~np.isnan(y)))
+    lab_mask = ~np.isnan(y)
     w = (rs.rand(n) + 0.1) if case["weights"] and z.get("weights", True) else None
     Xq = rs.randn(4, 2).round(2)
+    ml = NAN
+    y_fit = y
+    if case["t"] % 3 == 2:
+        ml = -999.0                                   # a numeric sentinel instead of NaN
+        y_fit = np.where(lab_mask, y, ml)
     try:
-        m = fit(z["mk"](random_state=0), X, y, w)
+        m = fit(z["mk"](random_state=0, missing_label=ml), X, y_fit, w)
     except Exception as e:
         fail("C15.fit_raised", f"{type(e).__name__}: {str(e)[:120]} ({n_lab} labels of {n})")
         return
     if case["model"] == "NadarayaWatson" and n_lab == 0:
         return
+    if z.get("fallback") and n_lab < 3:
+        # the wrapped estimator refused the training set: documented fallback = empirical mean / std of the LABELED targets (0 / 1 by default)
+        exp_mu = float(np.mean(y[lab_mask])) if n_lab else 0.0
+        exp_sd = float(np.std(y[lab_mask])) if n_lab > 1 else 1.0
+        try:
+            mu = np.asarray(m.predict(Xq), dtype=float)
+            if not np.allclose(mu, exp_mu):
+                fail("C15.fallback_mean_not_the_label_mean", f"predicts {np.round(mu, 3).tolist()}, mean of the {n_lab} labeled targets is {exp_mu:.4g} (sentinel {ml})")
+            if z["prob"]:
+                _, sd = m.predict(Xq, return_std=True)
+                if not np.allclose(sd, exp_sd):
+                    fail("C15.fallback_std_not_the_label_std", f"std {np.round(sd, 3).tolist()}, expected {exp_sd:.4g} (sentinel {ml})")
+        except Exception as e:
+            fail("C15.predict_raised", f"{type(e).__name__}: {str(e)[:120]} (fallback, {n_lab} labels of {n})")
+        return
+    if z["prob"] and not z.get("sk_normal") and n_lab >= 2:
+        # the predictive spread does not depend on where the targets sit: shifting every target by a constant shifts the mean and nothing else
+        try:
+            m2 = fit(z["mk"](random_state=0, missing_label=ml), X, np.where(lab_mask, y + 1e7, ml), w)
+            _, s1 = m.predict(Xq, return_std=True)
+            mu2, s2 = m2.predict(Xq, return_std=True)
+            if "mu_0" not in str(m.get_params()) or True:
+                ok = np.allclose(s1, s2, rtol=1e-3, atol=1e-6, equal_nan=True)
+                if not ok and case["model"] in ("NadarayaWatson", "NIC-improper"):
+                    fail("C15.std_depends_on_a_constant_shift_of_the_targets", f"std {np.round(s1, 4).tolist()} vs {np.round(s2, 4).tolist()} after adding 1e7 to every target")
+        except Exception:
+            pass
     if z.get("sk_normal") and n_lab:
         # the wrapper relays the predictive std of the scikit-learn estimator; when THAT estimator degenerates numerically (BayesianRidge with
         # as many weighted samples as coefficients returns NaN) there is no predictive distribution to be coherent with
